@@ -228,3 +228,8 @@ Print Assumptions C12_source_written_size_only_when_quiet.
 Print Assumptions C12_trace_after_crash_accepted.
 Print Assumptions C12_cut_trace_not_accepted.
 Print Assumptions C12_source_close_syncs_under_exclusive_lock.
+
+(* the single-writer discipline assumed by C12_single_writer_precise (`sstep`: an append starts only when none is in flight) is what the code does since commit 30498d9: structural fact re-extracted on every run *)
+Theorem C12_source_append_waits_for_appends_in_flight : Pearl.Generated.Facts.APPEND_WAITS_FOR_APPENDS_IN_FLIGHT = true.
+Proof. reflexivity. Qed.
+Print Assumptions C12_source_append_waits_for_appends_in_flight.
